@@ -64,7 +64,7 @@ class HyperWorld(World):
         else:
             p.update(lmbda=float(np.round(rng.uniform(20, 200), 2)), mu=float(np.round(rng.uniform(20, 100), 2)))
         mesh = (["quad4_a", "tri3_a", "quad4_b", "tri6_a"] if dim == 2 else ["hexa8_a"])[int(rng.integers(4 if dim == 2 else 1))]
-        return {
+        cfg = {
             "params": p, "mesh": mesh, "rho": float(np.round(rng.uniform(0.5, 3), 3)), "clamped": bool(rng.random() < 0.7),
             "stress": ["gonzalez", "gonzalez", "quadrature", "quadrature_fixed", "quadrature_fixed", "pointwise"][int(rng.integers(6))],
             "nPoints": [1, 1, 2, 3, 5][int(rng.integers(5))],
@@ -72,10 +72,16 @@ class HyperWorld(World):
             # residual): Kelvin-Voigt viscosity and an active fibre stress
             "eta": float(np.round(rng.uniform(0.01, 1.0), 3)) if rng.random() < 0.2 else 0.0,
             "active": [float(np.round(rng.uniform(0.5, 5.0), 3)), float(np.round(rng.uniform(0, np.pi), 3))] if rng.random() < 0.12 else None,
+            # the energy statement is about the midpoint scheme; a third of the runs step another scheme (no energy oracle
+            # then): the system of a Newton iteration must be the derivative of the residual under every one of them
+            "scheme": ["midpoint", "midpoint", "midpoint", "midpoint", "newmark", "hht", "euler_implicit"][int(rng.integers(7))],
             "preload": float(np.round(rng.uniform(-0.15, 0.15), 4)),
             "kick": float(np.round(rng.uniform(0, 0.5), 3)), "dt": float(np.round(10 ** rng.uniform(-2.3, -0.7), 5)),
             "nops": int(rng.integers(10, 31 if tier == "quick" else 61)), "faults": bool(faults),
         }
+        if cfg["scheme"] != "midpoint" and cfg["stress"] == "gonzalez":
+            cfg["stress"] = "quadrature_fixed"  # the discrete gradient is a midpoint construction (rejected elsewhere)
+        return cfg
 
     def __init__(self, cfg, ctx):
         super().__init__(cfg, ctx)
@@ -116,7 +122,7 @@ class HyperWorld(World):
         # tolerance) and any fixed strain-path rule when dW/de is linear in the strain (Saint-Venant-Kirchhoff: a rule
         # with one point or more integrates a linear integrand exactly)
         self.conserving = cfg["stress"] in ("gonzalez", "quadrature") or (cfg["stress"] == "quadrature_fixed" and cfg["params"]["law"] == "SaintVenantKirchhoff")
-        if cfg.get("eta") or cfg.get("active"):
+        if cfg.get("eta") or cfg.get("active") or cfg.get("scheme", "midpoint") != "midpoint":
             self.conserving = False
         try:
             self._reference_state_checks()
@@ -178,7 +184,13 @@ class HyperWorld(World):
 
         sim = self.sim
         with self.ctx.sut():
-            sim.Solver_Set_Hyperbolic_Algorithm(dt, algo=AlgoType.midpoint)
+            sch = self.cfg.get("scheme", "midpoint")
+            if sch == "newmark":
+                sim.Solver_Set_Hyperbolic_Algorithm(dt, algo=AlgoType.newmark, beta=0.3, gamma=0.6)
+            elif sch == "hht":
+                sim.Solver_Set_Hyperbolic_Algorithm(dt, algo=AlgoType.hht, alpha=0.1)
+            else:
+                sim.Solver_Set_Hyperbolic_Algorithm(dt, algo=AlgoType(sch) if sch != "midpoint" else AlgoType.midpoint)
             st = self.cfg["stress"]
             if st == "gonzalez":
                 sim.Solver_Set_Stress(sim.StressType.gonzalez)
@@ -241,6 +253,8 @@ class HyperWorld(World):
 
     # ------------------------------------------------------------------
     def gen_op(self, rng, frng):
+        if getattr(self, "ended", False):
+            return None
         w = {"step": 10, "set_dt": 1.5, "set_rho": 0.8, "save_iter": 1.0, "rollback": 0.6 if self.saved else 0, "tangent": 2.0 if self.cfg["stress"] != "quadrature" else 0,
              "energy_gradient": 1.5 if not (self.cfg.get("active") or self.cfg.get("eta")) else 0}
         names = sorted(w)
@@ -293,6 +307,12 @@ class HyperWorld(World):
                 failed = e
         if failed is not None:
             if simlib.is_nonconvergence(failed.exc):
+                if self.cfg.get("scheme", "midpoint") != "midpoint":
+                    # the strain-path stress under Newmark / HHT is not the subject of the energy statement and its
+                    # trajectories do blow up after a while: the run ends here, what was checked so far stands
+                    self.ended = True
+                    ctx.probe("non_midpoint_run_ended_by_nonconvergence")
+                    return
                 raise Discard("a dynamic step did not converge (or inverted an element)")
             raise Violation("step-raises", f"Solve raised {failed}", failed.site)
         ctx.phys_time += self.dt
@@ -362,6 +382,8 @@ class HyperWorld(World):
         if name == "step":
             for k in range(op["n"]):
                 self._one_step(op.get("fault") if (k == 0 and self.cfg.get("faults")) else None)
+                if getattr(self, "ended", False):
+                    return "ended"
                 if self.M is None:
                     with ctx.sut():
                         _, _, M, _ = sim.Get_K_C_M_F(self.pt)
